@@ -20,7 +20,20 @@ var hostileLens = []string{"-2", "-9223372036854775808", "-1", "0", "1", "214748
 	"9223372036854775807", "9223372036854775808", "18446744073709551615", "18446744073709551616", "99999999999999999999999", "1e9", "", "?", "-", "--1", "+1", "0x10", " 1", "\r"}
 
 func genMalformed(t *rapid.T) []byte {
-	switch rapid.IntRange(0, 6).Draw(t, "kind") {
+	switch rapid.IntRange(0, 7).Draw(t, "kind") {
+	case 7: // a length-prefixed frame that declares far more than it delivers, but delivers more than the decoder's first buffer
+		ty := rapid.SampledFrom([]byte{'$', '!', '=', ';'}).Draw(t, "bigTy")
+		decl := rapid.SampledFrom([]string{"268435456", "1073741824", "4294967296", "1099511627776"}).Draw(t, "bigDecl")
+		got := rapid.SampledFrom([]int{65535, 65536, 65537, 70000, 131073, 200000}).Draw(t, "bigGot")
+		pre := rapid.SampledFrom([]string{"", "*2\r\n", "%1\r\n+k\r\n", "|1\r\n+a\r\n"}).Draw(t, "bigPre")
+		if ty == ';' {
+			pre += "$?\r\n"
+		}
+		b := append([]byte(pre+string(ty)+decl+"\r\n"), make([]byte, got)...)
+		for i := len(b) - got; i < len(b); i++ {
+			b[i] = 'a' + byte(i%23)
+		}
+		return b
 	case 6: // deeply nested aggregates that each declare more than they deliver
 		pre := rapid.SampledFrom([]string{"*64\r\n", "*1000000\r\n", "%100000\r\n", "|5\r\n", "*1\r\n", ">3\r\n", "~65\r\n", "*?\r\n", "%1\r\n+k\r\n"}).Draw(t, "nestPre")
 		k := rapid.IntRange(1, 3000).Draw(t, "nestDepth")
